@@ -46,8 +46,12 @@ def _strong_tables(rng):
     ios = [0.0, 0.5, 3.0]
 
     def tab(z, a0, bx, cy):
-        return {"vi": [sgn * v for v in vis] if rng.random() < 0.3 else list(vis), "io": list(ios),
-                z: [[G.sig(a0 + bx * x + cy * v, 6) for x in ios] for v in vis]}
+        # rows listed ascending, descending or in ARBITRARY order (each row carries its own vi; the first / last listed
+        # row need not be the extreme one), vi optionally written with the sign of the rail
+        perm = rng.choice([[0, 1, 2], [2, 1, 0], [1, 2, 0], [1, 0, 2], [2, 0, 1], [0, 2, 1]])
+        vv = [vis[k] for k in perm]
+        return {"vi": [sgn * v for v in vv] if rng.random() < 0.3 else list(vv), "io": list(ios),
+                z: [[G.sig(a0 + bx * x + cy * v, 6) for x in ios] for v in vv]}
 
     def c(name, kind, args, parents):
         return {"name": name, "kind": kind, "args": args, "parents": parents, "group": "", "rail": "", "limits": None, "phase": None}
